@@ -99,6 +99,10 @@ pub enum InsertKind {
   /// Private EC JWK on another curve (`secp256k1`, `P-384`, `P-521`, `BLS12381G1`, `BLS12381G2`; selected by the
   /// low bits) claiming `alg: EdDSA` (even selector) or `HS256` (odd): never a compatible pair.
   EcOtherCurve(u8),
+  /// Private OKP JWK on curve Ed448 (57-byte `x` and `d`) with `alg: EdDSA` — the JOSE algorithm of both Edwards
+  /// curves, so the pair is self-consistent; the key type is one the in-memory store has no signer for. Either
+  /// outcome of the insertion is accepted, but a key the store took in has to sign.
+  Ed448,
 }
 
 #[derive(Debug, Clone, Serialize, Deserialize)]
@@ -187,6 +191,10 @@ fn insert_jwk_json(kind: InsertKind, key: &EdKey) -> Value {
     InsertKind::X25519 => {
       j["crv"] = json!("X25519");
       j["alg"] = json!("EdDSA");
+    }
+    InsertKind::Ed448 => {
+      let long = |b: &[u8]| crate::util::b64url(&[b, &b[..25]].concat());
+      j = json!({"kty": "OKP", "crv": "Ed448", "x": long(&key.public), "d": long(&key.public), "alg": "EdDSA"});
     }
     InsertKind::EcWithEdDsa => j = ec("EdDSA"),
     InsertKind::EcEs256 => j = ec("ES256"),
@@ -410,7 +418,7 @@ fn check_history(ops: &[Op], obs: &mut Obs) -> CheckResult {
           Err(p) => return obs.fail("insert-panics", format!("op {n}: insert({kind:?}) panicked: {}", p.msg)),
         };
         let acceptable = matches!(kind, InsertKind::Valid | InsertKind::ValidWithKid);
-        let either = *kind == InsertKind::EcEs256;
+        let either = matches!(kind, InsertKind::EcEs256 | InsertKind::Ed448);
         match r {
           Ok(id) => {
             vensure!(
@@ -425,7 +433,12 @@ fn check_history(ops: &[Op], obs: &mut Obs) -> CheckResult {
             let (public, jwk) = if acceptable {
               (Some(key.public), Some(fixture!(Jwk::from_json_value(public_jwk(&key)), "public jwk")))
             } else {
-              (None, None)
+              // a key type the harness cannot verify signatures of: its own public JWK is still "the right key"
+              let mut public_part = insert_jwk_json(*kind, &key);
+              if let Some(o) = public_part.as_object_mut() {
+                o.remove("d");
+              }
+              (None, Some(fixture!(Jwk::from_json_value(public_part), "public part of the inserted jwk")))
             };
             model.keys.push(Entry { id, public, jwk, live: true });
           }
@@ -484,7 +497,16 @@ fn check_history(ops: &[Op], obs: &mut Obs) -> CheckResult {
               obs.label("sign-opaque-key");
             }
           }
-          ("live", Err(_)) => obs.label(format!("sign-live-{pk_class}-err")),
+          ("live", Err(e)) => {
+            obs.label(format!("sign-live-{pk_class}-err"));
+            // a key the store generated or took in, offered with its own public JWK, has to sign
+            vensure!(
+              obs,
+              pk_class != "pk-right",
+              "live-key-does-not-sign",
+              "op {n}: sign({id}) with the key's own public JWK failed although the key is stored: {e}"
+            );
+          }
           (_, Ok(sig)) => vfail!(
             obs,
             "dead-key-signs",
@@ -808,6 +830,7 @@ fn op_strategy() -> impl Strategy<Value = Op> {
     1 => Just(InsertKind::X25519),
     1 => Just(InsertKind::EcWithEdDsa),
     1 => Just(InsertKind::EcEs256),
+    2 => Just(InsertKind::Ed448),
     2 => (0u8..10).prop_map(InsertKind::EcOtherCurve),
   ];
   let pk = prop_oneof![
